@@ -405,12 +405,23 @@ pub fn run(ctx: &Ctx) -> i32 {
     let ns: Vec<u32> = vec![1, 2, 3, 5, 8, 100, 4099, 65536, 1_000_003, 1 << 29];
     let sweep = par_jobs(ns.len(), |k| {
       let mut part = Part::new();
-      for &(lon, lat) in &pos {
+      for (ip, &(lon, lat)) in pos.iter().enumerate() {
         part.stratum("exponent-sweep", 1, 3);
         match check_pos(ns[k], lon, lat, listed_kf2, &mut part) {
           V::Ok => {}
           V::Known(ex) => part.known(KF2, ex),
           V::Bad(v) => part.viol(v),
+        }
+        // the same point written with whole turns added or removed (every fifth position)
+        if ip % 5 == 0 {
+          for t in [-3.0, -2.0, -1.0, 1.0, 2.0, 3.0] {
+            part.stratum("positions-turns", 1, 3);
+            match check_pos(ns[k], lon + t * TWO_PI, lat, listed_kf2, &mut part) {
+              V::Ok => {}
+              V::Known(ex) => part.known(KF2, ex),
+              V::Bad(v) => part.viol(v),
+            }
+          }
         }
       }
       part
